@@ -47,6 +47,10 @@ func (b Bound) Extend(point Point) Bound {
 		return b
 	}
 
+	if b.IsEmpty() {
+		return Bound{Min: point, Max: point}
+	}
+
 	return Bound{
 		Min: Point{
 			math.Min(b.Min[0], point[0]),
